@@ -2568,25 +2568,24 @@ class Parameters:
         values = self_.values()
         restore = {k: values[k] for k, v in kwargs.items() if k in values}
 
-        for (k, v) in kwargs.items():
-            if k not in self_:
-                self_._BATCH_WATCH = False
-                raise ValueError(f"{k!r} is not a parameter of {self_.cls.__name__}")
-            try:
+        try:
+            for (k, v) in kwargs.items():
+                if k not in self_:
+                    raise ValueError(f"{k!r} is not a parameter of {self_.cls.__name__}")
                 setattr(self_or_cls, k, v)
-            except Exception:
-                self_._BATCH_WATCH = False
-                raise
-
-        self_._BATCH_WATCH = BATCH_WATCH
-        if not BATCH_WATCH:
-            self_._batch_call_watchers()
-
-        for tp in trigger_params:
-            p = self_[tp]
-            p._mode = 'reset'
-            setattr(self_or_cls, tp, p._autotrigger_reset_value)
-            p._mode = 'set-reset'
+        finally:
+            # Also on failure: restore the batching state that was in force,
+            # announce what has been applied and reset the Event parameters.
+            self_._BATCH_WATCH = BATCH_WATCH
+            try:
+                if not BATCH_WATCH:
+                    self_._batch_call_watchers()
+            finally:
+                for tp in trigger_params:
+                    p = self_[tp]
+                    p._mode = 'reset'
+                    setattr(self_or_cls, tp, p._autotrigger_reset_value)
+                    p._mode = 'set-reset'
         return restore
 
     # PARAM3_DEPRECATION
